@@ -127,6 +127,11 @@ func genValue(t *rapid.T, rsize int) string {
 		return fmt.Sprintf("0x%x", v)
 	case 2:
 		return fmt.Sprintf("0b%b", v)
+	case 3:
+		// decimal with leading zeros (bmnumbers reads it as decimal, not as C-style octal)
+		return strings.Repeat("0", rapid.IntRange(1, 2).Draw(t, "zeros")) + fmt.Sprintf("%d", v)
+	case 4:
+		return fmt.Sprintf("0d%d", v)
 	}
 	return fmt.Sprintf("%d", v)
 }
